@@ -636,4 +636,65 @@ theorem deployConf_good {target : Path} {fs0 : Fs} {st st' : St} {k : Bool} {x :
     | none => exact confFile_good hg1 h
     | some y => simp at h; obtain ⟨rfl, _⟩ := h; exact hg1
 
+/-! ### the textual-normalisation rule for link targets (`checkNormpath`) against the repaired rule -/
+
+/-- `os.path.normpath` leaves a path without `..` alone -/
+theorem normalize_names (abs : Bool) : ∀ (l acc : List Seg), allNames l = true →
+    normalize abs acc l = acc.reverse ++ l := by
+  intro l
+  induction l with
+  | nil => intro acc _; cases acc <;> simp [normalize]
+  | cons x r ih =>
+    intro acc h
+    obtain ⟨hx, hr⟩ := allNames_cons.mp h
+    cases x with
+    | up => simp [isName] at hx
+    | name s =>
+      have : normalize abs acc (Seg.name s :: r) = normalize abs (Seg.name s :: acc) r := by
+        cases acc <;> simp [normalize]
+      rw [this, ih _ hr]
+      simp
+
+theorem normConfined_of_names {l : List Seg} (h : allNames l = true) : normConfined l = true := by
+  unfold normConfined
+  rw [normalize_names false l [] h]
+  simpa using h
+
+theorem allNames_dirSegs {l : List Seg} (h : allNames l = true) : allNames (dirSegs l) = true := by
+  unfold dirSegs
+  cases hs : splitLastSeg l with
+  | none => rfl
+  | some pr =>
+    obtain ⟨i, x⟩ := pr
+    have := splitLastSeg_eq hs
+    rw [this] at h
+    exact (allNames_append.mp h).1
+
+/-- member by member: the repaired rule = the textual rule and "the link target is descending" -/
+theorem memberOk_eq (dest : Path) (m : Member) :
+    memberOk dest m = (memberOkNormpath dest m && linkTargetDescending m) := by
+  cases m with
+  | file n => simp [memberOk, memberOkNormpath, linkTargetDescending]
+  | dir n => simp [memberOk, memberOkNormpath, linkTargetDescending]
+  | sym n t =>
+    simp only [memberOk, memberOkNormpath, linkTargetDescending]
+    cases hd : descending t with
+    | false => simp
+    | true =>
+      have hd' := hd
+      simp only [descending, Bool.and_eq_true, Bool.not_eq_true'] at hd'
+      cases hb : allNames (below dest n) with
+      | false => simp
+      | true =>
+        have := normConfined_of_names (allNames_append.mpr ⟨allNames_dirSegs hb, hd'.2⟩)
+        simp [this, hd'.1]
+  | hard n t =>
+    simp only [memberOk, memberOkNormpath, linkTargetDescending]
+    cases hd : descending t with
+    | false => simp
+    | true =>
+      have hd' := hd
+      simp only [descending, Bool.and_eq_true, Bool.not_eq_true'] at hd'
+      simp [normConfined_of_names hd'.2, hd'.1]
+
 end St4sd.Confine
